@@ -115,6 +115,13 @@ BOUNDED = {
         statement="when several operations use one rejected / missing component (parameter, response, request body), each of them is "
                   "generated or named by a diagnostic of its own (a shared diagnostic object is renamed by the last user)",
         bound="4 kinds of bad component x 2-3 operations"),
+    "odd_documents": dict(
+        unit="openapi_python_client.generate (parser and templates) on loadable documents with unusual but legal content",
+        where="openapi_python_client/__init__.py",
+        statement="generate() returns its diagnostics -- it does not raise -- for documents with non-string examples, defaults of "
+                  "other (also unhashable) types, empty / numeric-looking names, self-references, deep nesting, media types with "
+                  "parameters, missing optional parts",
+        bound="10 documents"),
     "equivalent_docs": dict(
         unit="generate() on pairs of documents that say the same thing in different notation", where="openapi_python_client/",
         statement="3.0 nullable vs 3.1 type list / null member, single-member allOf/oneOf/anyOf wrapper vs bare $ref, JSON vs "
